@@ -14,6 +14,7 @@ Stops   == <<"bg", "defer", "gate", "stop", "probe">>
 ReadOnly == <<"ro", "gate", "defer", "probe">>
 NoPath  == <<"nopath", "gate", "condexec", "probe">>
 WithPath == <<"gate", "condexec", "probe">>
+WaitFail == <<"defer", "bgfail", "bg", "gate", "wait", "probe">>
 
 MCBatches == {
   B(<<Sc("p1", Plain), Sc("p2", Probe2)>>, FALSE),
@@ -23,7 +24,9 @@ MCBatches == {
   B(<<Sc("n1", NoPath), Sc("w1", WithPath)>>, FALSE),
   B(<<Sc("w1", WithPath), Sc("n1", NoPath)>>, FALSE),
   B(<<Sc("d1", Defers), Sc("r1", ReadOnly)>>, TRUE),
-  B(<<Sc("p1", Plain), Sc("f1", Fails), Sc("s1", Skips)>>, FALSE)
+  B(<<Sc("p1", Plain), Sc("f1", Fails), Sc("s1", Skips)>>, FALSE),
+  B(<<Sc("x1", WaitFail), Sc("d1", Defers)>>, FALSE),
+  B(<<Sc("x1", WaitFail), Sc("x2", WaitFail)>>, FALSE)
 }
 
 EmitStep == IF Emit /\ sched' # sched
